@@ -483,7 +483,26 @@ impl Real {
                         // single appends go through `append_record` every other time (the thin
                         // wrapper is API surface too)
                         let single = bufs.len() == 1 && (bufs[0].len() + pos.unwrap_or(0) as usize) % 2 == 0;
-                        let res = if single { log.append_record(q, *pos, &bufs[0][..]) } else { log.append_records(q, *pos, bufs.iter().map(|b| &b[..])) };
+                        // the batch API takes any iterator of any `Buf`: vary the shape (exact size,
+                        // unknown upper bound, no bounds at all, payloads in two chunks)
+                        let shape = (bufs.len() + bufs.iter().map(|b| b.len()).sum::<usize>() + pos.unwrap_or(0) as usize / 3) % 4;
+                        let res = if single {
+                            log.append_record(q, *pos, &bufs[0][..])
+                        } else {
+                            match shape {
+                                0 => log.append_records(q, *pos, bufs.iter().map(|b| &b[..])),
+                                1 => log.append_records(q, *pos, bufs.iter().filter(|_| true).map(|b| &b[..])),
+                                2 => {
+                                    let mut it = bufs.iter();
+                                    log.append_records(q, *pos, std::iter::from_fn(move || it.next().map(|b| &b[..])))
+                                }
+                                _ => log.append_records(q, *pos, bufs.iter().map(|b| {
+                                    use bytes::Buf;
+                                    let k = b.len() / 2;
+                                    (&b[..k]).chain(&b[k..])
+                                })),
+                            }
+                        };
                         match res {
                             Ok(o) => Outcome::Appended(o.last_position, o.wal_bytes_written),
                             Err(AppendError::MissingQueue(_)) => Outcome::ErrMissing,
